@@ -298,6 +298,21 @@ def synthetic_calls(run, ntables, per_con):
         # themselves well-bounded types (the helpers' contract is about well-formed declarations)
         good = [c for c in tb.cons if all(inst_lib.bounds_respected(p.bound, top) for p in c.type_parameters)]
         run.tally("synthetic_constructors", "well-bounded" if len(good) == len(tb.cons) else "dropped-some")
+        # directed declarations: a parameter whose bound has several subtypes among the available types, followed
+        # by parameters bounded by it / mentioning it (mutually dependent parameters)
+        wide = [b for b in tb.boxed_builtins() + tb.simple
+                if sum(1 for x in tb.boxed_builtins() + tb.simple if x != b and inst_lib.refsub_sub(x, b)) >= 2]
+        if wide:
+            b0 = rng.choice(wide)
+            p0 = tp.TypeParameter("P", tp.Invariant, b0)
+            p1 = tp.TypeParameter("Q", tp.Invariant, p0)
+            extra = [tp.TypeParameter("R", tp.Invariant, None)]
+            if good and rng.random() < 0.5:
+                inner = rng.choice(good)
+                if all(q.bound is None for q in inner.type_parameters):
+                    extra.append(tp.TypeParameter("S", tp.Invariant, inner.new([p0 for _ in inner.type_parameters])))
+            order = [p0, p1] + extra if rng.random() < 0.6 else [extra[0], p0, p1] + extra[1:]
+            good = good + [tp.TypeConstructor("Dir", order, [tb.any])]
         if not good:
             continue
         import src.ir.ast as ast
